@@ -199,7 +199,7 @@ def gen_stateful(rng):
         base = base + [[[0] * dim, [1] * dim], [[1] * dim]][:2 - len(base)] if base else \
             [[[0] * dim, [5] * dim], [[1] * dim, [5] * dim]]
     R = max(1, int(max(mv["sr"]) / 4.0))           # search range in coordinate units
-    kind = rng.choice(["drift"] + (["near", "near"] if dim >= 2 else []) + (["chan"] if dim == 2 else []))
+    kind = rng.choice(["drift"] + (["near", "near"] if dim >= 2 else []) + (["chan", "chan"] if dim == 2 else []))
     variant = rng.choice(["plain", "drift", "drift", "shear"] if dim >= 2 else ["plain", "drift", "drift"])
     tstep = rng.choice([1, 1, 2])
     vel = [0] * dim
